@@ -5,6 +5,7 @@ func profileByName(name string) Profile {
 	p.Name = name
 	switch name {
 	case "general":
+		p.Types = []int{0, 1, 2, 3, 9, 17}
 	case "gapped":
 		p.PGap, p.POptional, p.PDecorate, p.PInvalid = 0.22, 0.4, 0.1, 0.02
 		p.MinFns, p.MaxFns = 3, 10
@@ -19,7 +20,7 @@ func profileByName(name string) Profile {
 		p.PMidInvoke = 0.4
 	case "keys":
 		p.Types = []int{0, 1, 3, 8}
-		p.Names = []string{"", "n1", "n2"}
+		p.Names = []string{"", "n1", "q\"x"}
 		p.Groups = []string{"g1", "g2", "n1"}
 		p.PNamed, p.PAs, p.PDup, p.PGroupRes, p.PGroupPar = 0.6, 0.3, 0.2, 0.3, 0.3
 	case "groups":
